@@ -28,7 +28,7 @@ T = {
             "Quotient filters q=3..6 are driven with add/remove/resize/merge over universes built to form runs, clusters, shifted runs and wrap-around; "
             "after every call check_alt of every universe hash, sorted get_hashes() and elements_added are compared with a Python set; each call runs under "
             "a sys.monitoring line budget so non-termination is observed, not waited for.",
-            "model is a Python set of ints; the known finding K1 (remove on a completely full single-cluster table) is excluded by mechanism and reported as KNOWN-FINDING", "4/C04"),
+            "model is a Python set of ints; removals on completely full single-cluster tables (the former known finding K1, repaired in /repo) are executed and counted separately; a wall-clock watchdog only triggers a re-run under the line budget", "4/C04"),
     "C05": ("exploration", "runtime monitor: differential original vs reload through every channel, all queries and accessors, re-export identity",
             "All 12 exportable classes in states after growth, rotation, eviction, removal and saturation are exported through bytes, file path, file object and hex, "
             "reloaded through the class they came from, and compared on every query, accessor and on re-exported bytes.",
